@@ -498,8 +498,13 @@ func (w *World) requestHeaders(m *MsgSpec) http.Header {
 		h.Set("Forwarded", m.Forwarded)
 	}
 	if m.XFHeader != "" {
-		for _, n := range w.cfg.IDP.Headers {
-			h.Set(n, m.XFHeader)
+		for i, n := range w.cfg.IDP.Headers {
+			if i == 0 {
+				h.Set(n, m.XFHeader)
+			} else {
+				// a header of lower priority names another host (what an inner proxy added): it must never win
+				h.Set(n, "host=inner-proxy.cluster.internal")
+			}
 		}
 	}
 	return h
@@ -1096,6 +1101,37 @@ func (w *World) buildAttrQ(t *Task, m *MsgSpec, sp *SPNode, s *Sent) error {
 	}
 	query = w.tamperXML(m, sp, s, query)
 	s.XML = query
+	for _, tp := range m.Tamper {
+		if tp.Op == "soap_header_wrap" && s.Signed {
+			// signature wrapping through the SOAP envelope: the query the SP signed travels in soap:Header, the query in soap:Body
+			// asks for someone else under another ID and carries a copy of that signature
+			if root, err := ParseXML([]byte(query)); err == nil {
+				for i := range root.Attrs {
+					if root.Attrs[i].Local == "ID" {
+						root.Attrs[i].Value = "_evil" + root.Attrs[i].Value
+					}
+				}
+				if len(w.cfg.Users) > 0 {
+					root.Walk(func(n *Node) {
+						if n.Is(NSA, "NameID") {
+							n.Children = []*Node{{IsText: true, Text: w.cfg.Users[mod(tp.A, len(w.cfg.Users))].LoginName, Parent: n}}
+						}
+					})
+				}
+				evil := serialize(root)
+				if i := strings.Index(open, "Body"); i > 0 {
+					j := strings.LastIndex(open[:i], "<")
+					pfx := open[j+1 : i]
+					open = open[:j] + "<" + pfx + "Header>" + query + "</" + pfx + "Header>" + open[j:]
+					open = strings.Replace(open, "<"+pfx+"Header/>", "", 1) // the empty header block some styles add
+				}
+				query = evil
+				s.XML = evil
+				w.notConformant(s, "tampered")
+				w.fire("tamper_soap_header_wrap")
+			}
+		}
+	}
 	body := open + query + closeS
 	for _, tp := range m.Tamper {
 		if tp.Op == "envelope" {
